@@ -78,6 +78,9 @@ def run_property(prop, tier, seed):
             t3 = time.time()
             for label, pcases, pimpl in P.process(tier_eff, rng, cicada):
                 pmodel = core.run_model(pcases, prop + label)
+                if hasattr(P, "CLASS_NAMES"):
+                    # a stream borrowed from another property names the finding classes in that property's terms
+                    pmodel = {k: (v[0], v[1], v[2], P.CLASS_NAMES.get(v[3], v[3])) if len(v) == 4 else v for k, v in pmodel.items()}
                 rep.count("process:" + label, len(pcases))
                 core.judge(rep, pcases, pimpl, pmodel, known, getattr(P, "nontrivial", None), project=getattr(P, "project", None))
             log("process-level: %.0fs" % (time.time() - t3))
